@@ -124,6 +124,60 @@ pub fn run_c18(ctx: &Ctx) -> Finish {
     let n = ctx.scale(if thorough { 400_000 } else { 30_000 }) / if asan { 4 } else { 1 };
     let (stats, _) = run_proptest(ctx.seed, n, || crate::props_seq::case_strategy(&spec), run_seq_case);
     ev.stats.merge(stats);
+    // A2: many-tree configurations (metadata sizes are padded to 64 bytes: 16 tree words, so
+    // size computations have boundaries at multiples of 16 trees)
+    let w = Weights {
+        change: 4,
+        drain: 4,
+        get_target: 20,
+        ..Weights::base(3)
+    };
+    let big_frames = || {
+        (1usize..=40, prop_oneof![Just(0usize), Just(1), Just(HUGE_FRAMES - 1), Just(HUGE_FRAMES), 0..llfree::TREE_FRAMES])
+            .prop_map(|(t, r)| t * llfree::TREE_FRAMES + r)
+    };
+    let (stats, _) = run_proptest(
+        ctx.seed ^ 0x18a2,
+        ctx.scale(if thorough { 40_000 } else { 3_000 }) / if asan { 4 } else { 1 },
+        || {
+            (
+                big_frames(),
+                crate::gen_cfg::init_strategy(),
+                crate::gen_cfg::class_strategy(true, false),
+                prop::collection::vec(op_strategy(&w), 0..16),
+                any::<u16>(),
+            )
+                .prop_map(|(frames, init, classes, mut ops, last)| {
+                    // always touch the last tree: its metadata sits at the end of the buffers
+                    ops.push(Op::Get { order: 0, class: 0, slot: SlotSel::None, target: Target::Boundary(0) });
+                    ops.push(Op::Get { order: 0, class: 0, slot: SlotSel::Slot(last), target: Target::Boundary(1) });
+                    SeqCase { cfg: crate::cfg::Config { frames, init, classes }, ops }
+                })
+                .boxed()
+        },
+        |c| {
+            let v = run_seq_case(c);
+            match v {
+                Verdict::Pass { nontrivial, mut classes } => {
+                    classes.push("many_trees");
+                    Verdict::Pass { nontrivial, classes }
+                }
+                v => v,
+            }
+        },
+    );
+    ev.stats.merge(stats);
+    let (stats, _) = run_proptest(
+        ctx.seed ^ 0x18a3,
+        ctx.scale(if thorough { 2_000 } else { 200 }) / if asan { 4 } else { 1 },
+        || {
+            (big_frames(), any::<bool>(), any::<bool>())
+                .prop_map(|(frames, alloc_all, with_slot)| InitCase { frames, alloc_all, with_slot })
+                .boxed()
+        },
+        run_init_case,
+    );
+    ev.stats.merge(stats);
     // B: initialization for frame counts around the boundaries
     let max = 4 * llfree::TREE_FRAMES + 70;
     let (stats, _) = run_proptest(
